@@ -10,8 +10,10 @@
 // (multi.go: commitTxs verifies every input in a goroutine of its own; the verdict must not depend on the schedule).
 // Blocks that reach the active chain through a re-organisation (stored on a side branch, connected by MoveToBlock /
 // ParseTillBlock) are judged by R against G only — see reorg.go.
-// Configurations (epOpts): chain.TrustedTxChecker installed with the harness as an honest pool (pool.go), compressed
-// UTXO records + wide transactions (compr.go; those episodes run in a child process, child.go). Multi-step histories
+// Configurations (epOpts): chain.TrustedTxChecker installed with the harness as an honest pool (pool.go) or with
+// client/txpool itself as the pool and a history of offers / replacements next to the chain's (realpool.go), compressed
+// UTXO records + wide transactions (compr.go; those episodes run in a child process, child.go), the record allocator
+// behind utxo.Memory_Malloc / Memory_Free (alloc.go), the road of the block object to CommitBlock (entry.go). Multi-step histories
 // with several re-organisations: walk.go (R against G's per-node coin maps after every submission).
 //   R accepts ∧ G refuses, R refuses but tip/dump changed, R accepts with a dump ≠ G   → property failure (PropFail)
 //   R ≠ M (verdict, dump, sigop cost), S ≠ G                                             → broken tie (TieFail)
@@ -45,6 +47,14 @@ type epOpts struct {
 	// memory pool's verification cache), UTXO records kept in the compressed format (NewChanOpts.CompressUTXO)
 	Pool     bool `json:"pool,omitempty"`
 	Compress bool `json:"compress,omitempty"`
+	// the road a block object takes to Chain.CommitBlock (entry.go): "" = CheckBlock+AcceptBlock, "net" = header first,
+	// "cache" = header first + the client's disk cache (object rebuilt with BuildTxListExt(false) + stored hashes)
+	Entry string `json:"entry,omitempty"`
+	// the allocator behind utxo.Memory_Malloc / Memory_Free (alloc.go): "" = Go heap (Free is a no-op), "poison" = a
+	// checking allocator that overwrites a record the moment it is released, "client" = lib/others/memory as the client installs it
+	Alloc string `json:"alloc,omitempty"`
+	// client/txpool is the memory pool: its own txChecker is the installed chain.TrustedTxChecker (realpool.go)
+	RealPool bool `json:"real_pool,omitempty"`
 }
 
 type replayDoc struct {
@@ -89,6 +99,7 @@ type episode struct {
 	nblocks int
 	special []*scoin // coins with height-gated scripts (reorg.go)
 	vouchNext map[[32]byte]bool // replay / dedicated kinds: what the pool vouches for in the next candidate (pool.go)
+	ptxs    []*ptx // transactions offered to the real pool so far whose inputs are still unspent (realpool.go)
 }
 
 func newEpisode(r *Run, o *vlib.Oracle, g *vlib.Rng, opts epOpts) *episode {
@@ -96,6 +107,10 @@ func newEpisode(r *Run, o *vlib.Oracle, g *vlib.Rng, opts epOpts) *episode {
 	if opts.Compress {
 		chOpts = &chain.NewChanOpts{CompressUTXO: true} // selects SerializeC / NewUtxoRecOwnC / OneUtxoRecC for the whole package
 	}
+	if opts.RealPool {
+		chOpts = realPoolChainOpts(chOpts) // realpool.go: BlockMinedCB / BlockUndoneCB -> client/txpool
+	}
+	installAlloc(opts.Alloc) // alloc.go: utxo.Memory_Malloc / Memory_Free for the records of this chain
 	k, err := chainkit.New(chainkit.Opts{GenesisTime: genesisTime, NoCSV: opts.NoCSV, NoSegWit: opts.NoSegWit, NoTaproot: opts.NoSegWit, ChainOpts: chOpts}, g)
 	if err != nil {
 		fmt.Fprintln(os.Stderr, "chainkit:", err)
@@ -123,10 +138,19 @@ func newEpisode(r *Run, o *vlib.Oracle, g *vlib.Rng, opts epOpts) *episode {
 	e.keys[string(e.key.P2PKH())] = e.key
 	e.keys[string(e.key.P2WPKH())] = e.key
 	e.keys[string(e.key.P2SH_P2WPKH())] = e.key
+	if opts.RealPool {
+		e.wireRealPool() // realpool.go: the client's globals, an empty pool, chain.TrustedTxChecker = txpool's own
+	}
 	return e
 }
 
-func (e *episode) close() { e.k.Close() }
+func (e *episode) close() {
+	e.k.Close()
+	e.closeAlloc()
+	if e.opts.RealPool {
+		chain.TrustedTxChecker = nil
+	}
+}
 
 // parse builds the judge-independent description of a candidate (own parse of the raw bytes).
 func (e *episode) parse(raw []byte) *cand { return e.parseOn(raw, e.k.Ch.LastBlock(), e.ref) }
@@ -256,7 +280,7 @@ func (e *episode) judge(kind string, raw []byte, fullDump bool) *outcome {
 	tA = time.Now()
 	setPool(c)
 	r.pending(pendingDoc{Kind: kind, Opts: e.opts, Candidate: hex.EncodeToString(raw), Vouched: c.vouchedIDs()})
-	res := e.k.Submit(raw)
+	res := e.submit(raw)
 	if !res.OK() && gerr == "script" {
 		// a verdict about scripts must not depend on the schedule of commitTxs' verification goroutines (multi.go)
 		res = e.resubmit(raw, res)
@@ -513,7 +537,9 @@ func main() {
 		"script verification (lib/script, property C01) is an oracle Bool per input in the Lean model and spec; the harness computes it with script.VerifyTxScript against the coin the sequential semantics names",
 		"wire decoding (C09), header/merkle/commitment rules (C05) and the record serialisation (C10) are outside this check: candidates are well-formed blocks built by chainkit",
 		"bl.Trusted is false for every candidate (btc.NewBlock's default; the trusted-block path of commitTxs / PostCheckBlock is not exercised) and utxo.UTXO_PURGE_UNSPENDABLE is false (asserted at start)",
-		"chain.TrustedTxChecker, in the episodes that install it, is an HONEST pool played by the harness: it vouches only for transactions none of whose inputs (that the sequential semantics finds) fails script verification under the block's flags (hypothesis hhonest of connect_sound_pool_hook)",
+		"chain.TrustedTxChecker, in the episodes where the HARNESS plays the pool (opts.Pool), is an honest pool: it vouches only for transactions none of whose inputs (that the sequential semantics finds) fails script verification under the block's flags (hypothesis hhonest of connect_sound_pool_hook); in the episodes with client/txpool as the pool (opts.RealPool) nothing is assumed about the hook — its answers are client/txpool's own — except the sources of the pool's transactions: untrusted network transactions (HandleNetTx, scripts verified by the pool) and local submissions (SubmitLocalTx, not verified, never vouched for); transactions from TRUSTED peers (pooled unverified AND vouched for: the operator's choice) are not generated, and no soft fork activates between a transaction's admission and the block (the pool verifies under the flags of the tip)",
+		"record allocators (opts.Alloc): the checking allocator overwrites a record when utxo.Memory_Free is called — any allocator meeting the contract 'released memory may be overwritten at once' admits that; with the Go-heap default a too-early release cannot be observed at all",
+		"the roads 'net' / 'cache' of a block object to Chain.CommitBlock (opts.Entry) are the client's statements (client/network/hdrs.go, data.go, client/main.go get_block_from_disk_cache / LocalAcceptBlock) replayed by the harness — those functions live in package main / need a peer connection; LastKnownHeight is the block's height + 0..3",
 		"compressed-record episodes: btc.CompressAmount / script compression are lossless on what a chain can contain (property C10); injected out-of-supply amounts are kept out of them",
 		"hash-prefix injectivity: no two different txids among the block's transactions and the records of the UTXO set share their first 8 bytes (a 2^32-work birthday collision on SHA-256d; UnspentDB.commit would file the new record over the old one — observed by keyClashProbe at the record layer, evidence field hash_prefix_injectivity_probe; Lean: connect_sound_needs_prefix_injectivity); only INPUTS naming a colliding txid are generated",
 		"reference semantics of Bitcoin written from memory of Bitcoin Core (DESIGN §3.7)",
@@ -552,7 +578,7 @@ func main() {
 	}
 	restoreStdout()
 	stopProf()
-	r.Finish("a case is one candidate block judged by real code, Lean model, Lean spec and Go reference on a generated chain state (distinct = distinct block bytes; configurations: plain / pool hook installed / compressed records), or one block of a branch walk (a block tree with several re-organisations; real code's active chain and full UTXO dump vs the Go reference's per-node coin maps), or one side-branch scenario (a stored side branch carrying one transaction that breaks / keeps one height-gated script rule overtakes the active chain; real code vs Go reference; distinct = distinct side-branch bytes), or one direct comparison of a sigop counter / GetBlockReward on a generated script / height (distinct = distinct input)",
+	r.Finish("a case is one candidate block judged by real code, Lean model, Lean spec and Go reference on a generated chain state (distinct = distinct block bytes; configurations: plain / pool hook played by the harness / client/txpool as the pool / compressed records / checking and client record allocators / block object built on the network road or rebuilt from the client's disk cache), or one block of a branch walk (a block tree with several re-organisations; real code's active chain and full UTXO dump vs the Go reference's per-node coin maps), or one side-branch scenario (a stored side branch carrying one transaction that breaks / keeps one height-gated script rule overtakes the active chain; real code vs Go reference; distinct = distinct side-branch bytes), or one direct comparison of a sigop counter / GetBlockReward on a generated script / height (distinct = distinct input)",
 		"C04: Lean model of commitTxs/CheckTransaction/sigop counters/UnspentGet tied to the real Chain.CheckBlock+AcceptBlock by differential runs on chainkit chains; property predicate = independent sequential ConnectBlock (Go) cross-checked against the Lean spec")
 }
 
@@ -561,7 +587,7 @@ func runReplay(r *Run, o *vlib.Oracle) {
 	var w struct {
 		Replay replayDoc `json:"replay"`
 	}
-	if b, err := os.ReadFile(r.Replay); err == nil && json.Unmarshal(b, &w) == nil && w.Replay.Candidate != "" && w.Replay.Opts.Compress {
+	if b, err := os.ReadFile(r.Replay); err == nil && json.Unmarshal(b, &w) == nil && w.Replay.Candidate != "" && inChild(w.Replay.Opts) {
 		// what such a document shows may depend on how the goroutines of UnspentDB.commit are scheduled: up to 25 attempts
 		nv, n := r.Violations(), 0
 		for n < 25 && r.Violations() == nv {
@@ -607,6 +633,20 @@ func runReplayHere(r *Run, o *vlib.Oracle) {
 				vals = append(vals, x)
 			}
 			e.injectAs(id, vals)
+			continue
+		}
+		if strings.HasPrefix(h, "offer:") || strings.HasPrefix(h, "offerlocal:") { // realpool.go: a transaction handed to the pool at this point of the history
+			k := strings.Index(h, ":")
+			if b, err := hex.DecodeString(h[k+1:]); err == nil {
+				if tx, _ := btc.NewTx(b); tx != nil {
+					tx.Raw = b
+					if h[:k] == "offer" {
+						fmt.Println("replay: offer ->", e.offer(tx)) // (offer() records it in the history itself)
+					} else {
+						fmt.Println("replay: local submission ->", e.offerLocal(tx))
+					}
+				}
+			}
 			continue
 		}
 		raw, _ := hex.DecodeString(h)
